@@ -660,7 +660,7 @@ def c06_convert(work, prop, tier, seed):
     res, layouts, lf = convert_layouts(work)
     v, (nlay, events, images), dt, tw = convert_run(work, vh, lf, "c06", 1, 0, "dirgc", False, seed, "C06", pick=24 if tier == "quick" else 2)
     log("convert layouts: %d of %d layouts on dirgc, %d events, %d failures (exec %.1fs, tlc %.1fs)" % (nlay, len(layouts), events, len(v["fails"]), dt, tw))
-    if v["stats"]["checked"] < nlay or nlay < 100:
+    if not v["fails"] and (v["stats"]["checked"] < nlay or nlay < 100):
         raise Inconclusive("dirgc: only %d of %d events were judged" % (v["stats"]["checked"], nlay))
     violations, seen = [], set()
     for f in v["fails"]:
